@@ -67,7 +67,9 @@ impl<B: Send + 'static> Service<http::Request<B>> for Canned {
         let sb = ScriptBody::new(self.body.clone(), None, self.chunking.clone(), &self.ch);
         *self.stats.lock().unwrap() = Some(sb.stats());
         let mut r = http::Response::new(crate::env::Segmented { inner: sb, segments: self.segments });
-        r.headers_mut().insert("content-type", HeaderValue::from_static("application/grpc-web+proto"));
+        // every spelling of a binary grpc-web response, rotating with the body length
+        let ct = ["application/grpc-web+proto", "application/grpc-web", "application/grpc-web+json", "application/grpc-web+proto"][self.body.len() % 4];
+        r.headers_mut().insert("content-type", HeaderValue::from_static(ct));
         Box::pin(async move { Ok(r) })
     }
 }
